@@ -23,6 +23,15 @@ Driver family `db` (C12).  Stateful case lines; every line of a case carries the
 
 tags: `noid badhex badlen batchsize notfound internal` (gRPC code + message, see `Whv.Db.RpcErr`), anything else is reported as is.
 
+Clauses on error paths in the middle of a scan / a batch (each judged on the implementation's own reply):
+* `gap-not-stream-exact` / `fmm-not-stream-exact` also for a stream holding a stored VAA `vaa.Unmarshal` rejects (empty payload, version
+  other than 1): an error there makes no statement and is accepted, a report given WITHOUT an error has to be `specGap` of the stream;
+* `backfill-report-wrong` whatever the nodes answered: a successful call lists exactly the stream's missing sequences no node served
+  (`f` = any status other than 200 / 404 for that sequence: 5xx, 429, 4xx);
+* `rpc-batch-wrong-bytes` / `rpc-batch-phantom` / `rpc-batch-lost` next to `rpc-batch-not-stream-exact`: the batch answer entry by entry
+  (bytes of another identifier under this label / bytes for a never-stored identifier / a stored requested identifier without entry);
+  these three are also reported by C16 (`checks/c12.py:RPC_C16`).
+
 The Spec is evaluated from the implementation's own lines only: the history is the list of `(id, val)` of the `put` lines that
 returned ok, and an answer is judged against `lastStored` / `specGap ∘ streamSeqs` / `specGov` of that history.
 -/
@@ -104,6 +113,10 @@ structure St where
 def streamDecodable (h : List Put) (s : Stream) : Bool :=
   (h.filter fun p => inStream s p.1).all fun p => (unmarshal p.2).isSome
 
+/-- sequences of stream `s` whose value stored last does not decode -/
+def undecodableSeqs (h : List Put) (s : Stream) : List Nat :=
+  ((h.filter fun p => inStream s p.1 && (unmarshal p.2).isNone && lastStored h p.1 == some p.2).map (·.1.sequence)).eraseDups
+
 def lookAlike (h : List Put) (s : Stream) : Bool :=
   h.any fun p => p.1.emitterChain == s.ec && p.1.emitter == s.addr && p.1.targetChain != s.tc &&
     (decChars s.tc).isPrefixOf (decChars p.1.targetChain)
@@ -176,11 +189,16 @@ def stepLine (st : St) (line : String) : St × List String :=
       match impl with
       | none => (st, [s!"spec {cid} gap-error gap query for {shortStream s} ended with {res}"])
       | some r =>
-        let inDom := !st.outOfDomain && streamDecodable st.hist s
+        let dec := streamDecodable st.hist s
+        let inDom := !st.outOfDomain && dec
         let want := specGap (streamSeqs st.hist s)
         if inDom && r = .err then (st, [s!"spec {cid} gap-error gap query for {shortStream s} returned an error although every VAA of that stream decodes"])
         else if inDom && r ≠ want then
           (st, [s!"spec {cid} gap-not-stream-exact stream {shortStream s} holds sequences {showNats (streamSeqs st.hist s)}: expected {showGap want} got {showGap r}"])
+        else if !st.outOfDomain && !dec && r ≠ .err && r ≠ want then
+          -- a stored VAA of the stream is rejected by vaa.Unmarshal (empty payload, version other than 1): failing the query is
+          -- acceptable (no statement is made), a successful report still has to be the stream's
+          (st, [s!"spec {cid} gap-not-stream-exact stream {shortStream s} holds sequences {showNats (streamSeqs st.hist s)} (stored under {showNats (undecodableSeqs st.hist s)}: a VAA that vaa.Unmarshal rejects, returned byte-exact by the lookup): the query answered without an error, so its report must be the stream's: expected {showGap want} got {showGap r}"])
         else
           let m := findGap st.store s.ec s.addr s.tc
           if m = r then
@@ -263,8 +281,31 @@ def stepLine (st : St) (line : String) : St × List String :=
                 else none
               | .error _ => none
             else none
+          -- the same answer entry by entry (each entry is a lookup of the identifier it names)
+          let fine : List String :=
+            if sp.isNone then [] else
+            match decodeEmitterAddress addrC with
+            | .error _ => []
+            | .ok a =>
+              let idOf (q : Nat) : VaaId := ⟨ec.toNat, a, tc.toNat, q⟩
+              let wrong := out.filter fun e => match lastStored st.hist (idOf e.1) with | some w => w != e.2 | none => false
+              let phantom := out.filter fun e => (lastStored st.hist (idOf e.1)).isNone
+              let lost := (seqs.filter fun q => (lastStored st.hist (idOf q)).isSome && !(out.any fun e => e.1 == q)).eraseDups
+              let whose (b : Bytes) : String :=
+                match st.hist.find? (fun p => p.2 == b) with
+                | some p => s!"the VAA stored under {shortId p.1}"
+                | none => "bytes that were never stored"
+              (match wrong with
+               | e :: _ => [s!"spec {cid} rpc-batch-wrong-bytes batch {ec}/{toHex (a.take 4)}../{tc} seqs={showNats seqs}: the entry labelled sequence {e.1} carries {e.2.length} bytes that differ from the VAA stored under {shortId (idOf e.1)} - they are {whose e.2} ({wrong.length} such entries of {out.length})"]
+               | [] => []) ++
+              (match phantom with
+               | e :: _ => [s!"spec {cid} rpc-batch-phantom batch {ec}/{toHex (a.take 4)}../{tc} seqs={showNats seqs}: sequence {e.1} was never stored in that stream, the entry labelled {e.1} carries {e.2.length} bytes - {whose e.2} ({phantom.length} such entries of {out.length})"]
+               | [] => []) ++
+              (match lost with
+               | q :: _ => [s!"spec {cid} rpc-batch-lost batch {ec}/{toHex (a.take 4)}../{tc} seqs={showNats seqs}: {shortId (idOf q)} was stored, the batch has no entry for it (stored and requested but not returned: {showNats lost})"]
+               | [] => [])
           match sp with
-          | some s => (st, [s])
+          | some s => (st, s :: fine)
           | none =>
             match m with
             | .ok l => if l = out then (st, [s!"ok {cid}"]) else (st, [s!"diff {cid} rbatch: model {showSeqOut l} impl {showSeqOut out}"])
@@ -315,11 +356,13 @@ def stepLine (st : St) (line : String) : St × List String :=
             match decodeEmitterAddress addrC with
             | .ok a =>
               let s : Stream := ⟨ec, a, tc⟩
-              if !st.outOfDomain && ec < 65536 && tc < 65536 && streamDecodable st.hist s then
+              if !st.outOfDomain && ec < 65536 && tc < 65536 then
                 match specGap (streamSeqs st.hist s) with
                 | .ok wm wf wl =>
                   let wantIds := wm.map fun v => s!"{ec}/{toHex a}/{tc}/{v}"
-                  if (wantIds ≠ out || wf ≠ f || wl ≠ l) && st.afterBfill then
+                  if (wantIds ≠ out || wf ≠ f || wl ≠ l) && !streamDecodable st.hist s then
+                    some s!"spec {cid} fmm-not-stream-exact stream {shortStream s} holds {showNats (streamSeqs st.hist s)} (stored under {showNats (undecodableSeqs st.hist s)}: a VAA that vaa.Unmarshal rejects): the call answered without an error, so its report must be the stream's: expected missing={showNats wm} first={wf} last={wl}, got {out.length} ids first={f} last={l}: {o.take 300}"
+                  else if (wantIds ≠ out || wf ≠ f || wl ≠ l) && st.afterBfill then
                     some s!"spec {cid} backfill-wrote-store after a backfill call the stream {shortStream s} reports missing={o.take 200} first={f} last={l}, but the history of successful stores gives missing={showNats wm} first={wf} last={wl}: the admin service must only forward, never write the store"
                   else if wantIds ≠ out || wf ≠ f || wl ≠ l then
                     some s!"spec {cid} fmm-not-stream-exact stream {shortStream s} holds {showNats (streamSeqs st.hist s)}: expected missing={showNats wm} first={wf} last={wl}, got {out.length} ids first={f} last={l}: {o.take 300}"
@@ -370,18 +413,41 @@ def stepLine (st : St) (line : String) : St × List String :=
         else
           let addrC := bytesToChars addr
           let m := findMissingBackfill st.store ec addrC tc answer
-          if m.forwarded ≠ fwd then
+          -- The report of a SUCCESSFUL call, judged on the call's own reply (before any comparison with the model): every
+          -- sequence that is missing in the stream and that no node served must be listed, and nothing else - whatever the
+          -- nodes answered for it (404, garbage, 5xx / 429 / 403 ...).  The ids asked for are the stream's missing sequences
+          -- (from the history of successful stores; the scripted ones where the request names no stream).
+          let unserved (i : Nat) : Bool := match answer i with | .served _ => false | _ => true
+          let asked : List Nat :=
+            match decodeEmitterAddress addrC with
+            | .ok a =>
+              if !st.outOfDomain && ec < 65536 && tc < 65536 then
+                match specGap (streamSeqs st.hist ⟨ec, a, tc⟩) with
+                | .ok wm _ _ => wm
+                | .err => entries.map (·.1)
+              else entries.map (·.1)
+            | .error _ => entries.map (·.1)
+          let spRep : Option String :=
+            match (if res = "ok" then kv rest "out" else none) with
+            | none => none
+            | some o =>
+              let out : List String := if o = "-" then [] else o.splitOn ","
+              let outSeqs := out.map fun (x : String) => (x.splitOn "/").getLast?.bind String.toNat?
+              let wantUnf := asked.filter unserved
+              let failedSeqs := (entries.filter fun e => e.2 == NodeAnswer.failed).map (·.1)
+              if outSeqs = wantUnf.map some then none
+              else if failedSeqs.isEmpty then
+                some s!"spec {cid} backfill-report-wrong the nodes served nothing for sequences {showNats wantUnf} of the stream, the call reported {o.take 200} as still missing"
+              else
+                some s!"spec {cid} backfill-report-wrong sequences {showNats asked} are missing in the stream; the backfill nodes served nothing for {showNats wantUnf} (for {showNats failedSeqs} they answered with a status other than 200/404), yet the call succeeded and reported only {o.take 200} as still missing: {showNats (wantUnf.filter fun i => !outSeqs.contains (some i))} missing, not backfilled, not reported"
+          if let some sp := spRep then (st, [sp])
+          else if m.forwarded ≠ fwd then
             (st, [s!"diff {cid} bfill: model forwards {m.forwarded.length} VAAs, impl {fwd.length}: {fwdS.take 200}"])
           else if res = "ok" then
             match kv rest "out", kvNat rest "first", kvNat rest "last", m.result with
             | some o, some f, some l, .ok r =>
               let out : List String := if o = "-" then [] else o.splitOn ","
-              let hasFailed := entries.any fun e => e.2 == NodeAnswer.failed
-              let wantUnf := (entries.filter fun e => e.2 == NodeAnswer.absent).map fun e => e.1
-              let outSeqs := out.map fun (x : String) => (x.splitOn "/").getLast?.bind String.toNat?
-              if !hasFailed && outSeqs ≠ wantUnf.map some then
-                (st, [s!"spec {cid} backfill-report-wrong the nodes served nothing for sequences {showNats wantUnf} of the stream, the call reported {o.take 200} as still missing"])
-              else if r.missing.map String.ofList = out && r.first = f && r.last = l then (st, [s!"ok {cid}"])
+              if r.missing.map String.ofList = out && r.first = f && r.last = l then (st, [s!"ok {cid}"])
               else (st, [s!"diff {cid} bfill: model unfilled={r.missing.map String.ofList} first={r.first} last={r.last} impl {o.take 300} first={f} last={l}"])
             | _, _, _, .error e => (st, [s!"diff {cid} bfill: model {errTag e} impl ok"])
             | _, _, _, _ => (st, [s!"diff {cid} unparsable bfill result"])
